@@ -7,7 +7,7 @@ from lib.coqterm import cbytes, cbool, copt, cN, clist, hx, unhx
 
 ID = "C54"
 QUICK_N = 3000
-THOROUGH_N = 60000
+THOROUGH_N = 40000
 SHARD = 250
 RULE = ("a case is a history of 2-9 response/request events driven through one real StickyCookie instance. 70%: "
         "responses from a host of a related-host family (base, sub, parent, look-alikes that contain the base as an "
@@ -15,7 +15,7 @@ RULE = ("a case is a history of 2-9 response/request events driven through one r
         "with/without/with extra dots, foreign Domain, Path variants, Expires/Max-Age past/future/garbage, bare "
         "Domain/Path/Max-Age tokens), then requests aimed at the stored keys (same/related/unrelated host, same/other "
         "port, path = cookie path, segment below it, sibling with the same string prefix, query variants); 30%: the "
-        "same with byte-level mutations of hosts, domains and paths. Non-trivial = at least one cookie was stored "
+        "same with byte-level mutations of hosts, domains and paths; thorough adds every (responding host, Domain, request host) over 14x16x14 and every (cookie path, request path) over 13x13 dictionaries. Non-trivial = at least one cookie was stored "
         "and at least one request was made while the jar was non-empty; distinct by canonical JSON.")
 TRUSTED = ["Coq 8.16.1 kernel (coqc), vm_compute for case evaluation",
            "harness/props/C54.py generator, observation of the addon (jar snapshots, Cookie header) and Corr/C54.v",
@@ -160,8 +160,35 @@ def gen_history(rng, adversarial):
     return {"flt": flt, "events": evs}
 
 
+SYS_HOSTS = ["example.com", "www.example.com", "a.www.example.com", "example.com.evil.org", "a.example.com.evil.org",
+             "xexample.com", "EXAMPLE.COM", "example.com.", ".example.com", "com", "10.1.2.3", "1.2.3", "::1", "evil.org"]
+SYS_DOMS = [None, "example.com", ".example.com", "..example.com", "example.com.", ".EXAMPLE.com", ".com", "com", "",
+            ".", ".www.example.com", "www.example.com", ".2.3", ".evil.org", "ample.com", ".ample.com"]
+SYS_PATHS = ["/", "/foo", "/foo/", "/foo/bar", "/foobar", "/foo?x", "/foo?x=1", "/fo", "", "foo", "/foo/?y", "/FOO", "//"]
+
+
+def gen_systematic():
+    """thorough tier: every (responding host, Domain attribute, request host) and every (cookie path, request path)
+    over small dictionaries, as two-event histories"""
+    enc = lambda x: hx(x.encode())
+    out = []
+    for rh in SYS_HOSTS:
+        for d in SYS_DOMS:
+            h = set_cookie_header("sid", "1", d, None, None)
+            evs = [{"t": "resp", "host": rh, "port": 80, "set_cookie": [enc(h)]}]
+            evs += [{"t": "req", "host": qh, "port": 80, "path": enc("/"), "method": "GET", "cookie": None} for qh in SYS_HOSTS]
+            out.append({"flt": True, "events": evs})
+    for cp in SYS_PATHS:
+        h = set_cookie_header("sid", "1", None, cp, None)
+        evs = [{"t": "resp", "host": "example.com", "port": 80, "set_cookie": [enc(h)]}]
+        evs += [{"t": "req", "host": "example.com", "port": 80, "path": enc(rp), "method": "GET", "cookie": None} for rp in SYS_PATHS]
+        out.append({"flt": True, "events": evs})
+    return out
+
+
 def gen(rng, n, tier):
-    return [gen_history(rng, adversarial=rng.chance(0.30)) for _ in range(n)]
+    out = gen_systematic() if tier == "thorough" else []
+    return out + [gen_history(rng, adversarial=rng.chance(0.30)) for _ in range(n)]
 
 
 # ------------------------------------------------------------------ implementation runner
